@@ -38,6 +38,8 @@ PROFILES = {
     'alloc':     dict(BASE, _nolog=1, _extra='-DVH_ALLOC_HOOK', _flavours=['gcc', 'clang'], pendq=0, wSaveLoad=10, wPlanEdit=3, wExtStatus=1, pSucceed=100, pFail=20, pPlanInCb=100, wReset=1, wExitEnter=1, maxBatch=10, pIssue=100, pGuardIssue=200),
     'ordinary':  dict(BASE, wSaveLoad=8, wPlanEdit=2, wExtStatus=1, pSucceed=80, pFail=20, pPlanInCb=40, wReset=1, wExitEnter=1, wRecreate=5, replica=0),
     'copies':    dict(BASE, copies=40, pIssue=0, pGuardCancel=0, pGuardIssue=0, maxBatch=3, wReset=1, wExitEnter=1, wImmediate=3),
+    'c15-core':  dict(BASE, kinds=0x4f, pGuardIssue=0, pGuardCancel=80, pIssue=40, maxBatch=3, pendq=0, wReset=1, wExitEnter=1, wQuery=1, pConsume=40, wfEvery=0),
+    'c15-utility': dict(BASE, kinds=0x7f, pGuardIssue=0, pGuardCancel=80, pIssue=40, maxBatch=3, pendq=0, wReset=1, wExitEnter=1, wQuery=1, pConsume=40, wfEvery=0),
     'payload':   dict(BASE, pGuardCancel=60, pGuardIssue=100, pIssue=80, maxBatch=4),
 }
 
@@ -368,6 +370,154 @@ def c10_engine(prop, tier, seed, keep=False):
     return V.finish(cov, ['differential oracle: byte-equality of complete event logs', 'MemorySanitizer is not used (uninstrumented libstdc++); valgrind memcheck on un-prefilled storage plus the pre-fill differential cover uninitialised reads', 'copies share their original\'s context and generator by reference (library design); the scripted generator outlives both'])
 
 # ---------------------------------------------------------------------------------------------
+# C15: optional features and header flavour never change unrelated behaviour (trace equality across builds)
+
+FEATURES = ['PLANS', 'SERIALIZATION', 'TRANSITION_HISTORY', 'STRUCTURE_REPORT', 'UTILITY_THEORY', 'DEBUG_STATE_TYPE']
+LOGMODES = ['', 'LOG_INTERFACE', 'VERBOSE_DEBUG_LOG']
+
+def c15_configs(tier, rng, fixed_on=()):
+    import itertools
+    allc = [(bits, lm) for bits in itertools.product((0, 1), repeat=len(FEATURES)) for lm in range(3)]
+    allc = [c for c in allc if all(c[0][FEATURES.index(f)] for f in fixed_on)]
+    if tier == 'thorough': return allc
+    # pairwise-covering subset (greedy), always containing all-off and all-on
+    want = set()
+    cols = len(FEATURES) + 1
+    def cells(c):
+        v = list(c[0]) + [c[1]]
+        return set((i, j, v[i], v[j]) for i in range(cols) for j in range(i + 1, cols))
+    for c in allc: want |= cells(c)
+    chosen = [c for c in allc if (sum(c[0]) in (len(fixed_on), len(FEATURES))) and c[1] == 0]
+    covered = set()
+    for c in chosen: covered |= cells(c)
+    pool = list(allc); rng.shuffle(pool)
+    while covered != want and len(chosen) < 24:
+        best = max(pool, key=lambda c: len(cells(c) - covered))
+        if not (cells(best) - covered): break
+        chosen.append(best); covered |= cells(best)
+    return chosen
+
+def c15_defs(cfg, opts):
+    bits, lm = cfg
+    d = ['-DVH_FEATURES_SET'] + ['-DHFSM2_ENABLE_' + f for f, b in zip(FEATURES, bits) if b]
+    if lm: d.append('-DHFSM2_ENABLE_' + LOGMODES[lm])
+    if opts.get('nopayload'): d.append('-DVH_NO_PAYLOAD')
+    if opts.get('notypeindex'): d.append('-DHFSM2_DISABLE_TYPEINDEX')
+    return ' '.join(d)
+
+def c15_norm(path):
+    out = []
+    keep = set('OcjkSDvE')
+    try:
+        with open(path) as f:
+            for l in f:
+                t = l[0]
+                if t in keep:
+                    if t == 'S':        # isPending* / activity are not part of the common subset
+                        p = l.split(); out.append(' '.join(p[:5]))
+                    else: out.append(l.rstrip('\n'))
+                elif t == 'q':
+                    p = l.split(); out.append('q %s %s %s' % (p[1], p[2], p[4]))
+                elif t == 'g':
+                    p = l.split(); n = int(p[4]); body = []
+                    for i in range(n): body += p[5 + 4 * i + 1: 5 + 4 * i + 4]
+                    out.append('g %s %s %s %d %s' % (p[1], p[2], p[3], n, ' '.join(body)))
+    except OSError: return None
+    return out
+
+def c15_job(job):
+    sj, flavour, defs, guard, label, seed, steps, profile = job
+    hdr = '<hfsm2/machine_dev.hpp>' if vlib.FLAVOURS[flavour][2] == 'dev' else '<hfsm2/machine.hpp>'
+    tu = shp.emit_tu(sj, header=hdr)
+    binp, out = vlib.build_one(tu, flavour, extra_flags=defs, name=sj['name'], guard=guard)
+    res = {'shape': sj['name'], 'label': label, 'defs': defs, 'flavour': flavour, 'guard': guard}
+    if not binp: res['nocompile'] = out[:300]; return res
+    logp = os.path.join(vlib.scratch(), 'c15-%s-%d-%d.log' % (sj['name'], os.getpid(), abs(hash(label)) % 100000))
+    args = ['steps=%d' % steps, 'seed=%d' % seed, 'log=' + logp, 'useLogger=0'] + knob_args(profile)
+    rc, so, se = vlib.run_bin(binp, args, timeout=600)
+    res['rc'] = rc; res['args'] = args
+    tr = c15_norm(logp)
+    try: os.unlink(logp)
+    except OSError: pass
+    if rc != 0 or tr is None: res['error'] = 'rc=%s %s' % (rc, se[-300:]); return res
+    res['trace'] = tr
+    return res
+
+def c15_engine(prop, tier, seed):
+    V = vlib.Verdict(prop, tier, seed)
+    vlib.prune_cache()
+    rng = random.Random(seed * 977 + 3)
+    T = TIERS[tier]
+    nshape = 2 if tier == 'quick' else 8
+    families = [
+        dict(name='core', fixed=(), profile='c15-core', strategies=['Composite', 'Resumable', 'Selectable']),
+        dict(name='utility', fixed=('UTILITY_THEORY',), profile='c15-utility', strategies=shp.STRATS),
+    ]
+    jobs = []; meta = {}
+    for fam in families:
+        shapes_ = []
+        for i in range(nshape):
+            spec = shp.rand_spec(rng, depth=3, max_width=3, strategies=fam['strategies'], min_states=5, max_states=22)
+            cfg = dict(shp.DEFAULT_CFG); cfg['manual'] = i % 2; cfg['bottomup'] = (i // 2) % 2
+            shapes_.append(shp.shape_json('c15%s%d_%d' % (fam['name'][0], seed, i), spec, cfg))
+        configs = c15_configs(tier if len(shapes_) <= 2 or tier == 'quick' else 'quick', rng, fam['fixed'])
+        if tier == 'thorough': configs_full = c15_configs('thorough', rng, fam['fixed'])
+        for si, sj in enumerate(shapes_):
+            cfgs = configs_full if (tier == 'thorough' and si < 2) else configs
+            rseed = seed * 131 + si + 1
+            for c in cfgs:
+                for opts in ({}, {'nopayload': 1}) if (si % 2 == 0) else ({},):
+                    label = '%s|%s|%s' % (''.join(str(b) for b in c[0]), LOGMODES[c[1]] or '-', 'void' if opts.get('nopayload') else 'int')
+                    jobs.append((sj, 'clang', c15_defs(c, opts), True, label, rseed, T['steps'], fam['profile']))
+            # config options and build axes on the all-on configuration
+            allon = (tuple(1 for _ in FEATURES), 0)
+            for extra_cfg, lab in (({'subst': 7}, 'subst7'), ({'taskcap': 40}, 'taskcap+'),):
+                sj2 = dict(sj); sj2['cfg'] = dict(sj['cfg'], **extra_cfg)
+                jobs.append((sj2, 'clang', c15_defs(allon, {}), True, 'allon|' + lab, rseed, T['steps'], fam['profile']))
+            nodbg = (tuple(0 if f == 'DEBUG_STATE_TYPE' else 1 for f in FEATURES), 0)
+            jobs.append((sj, 'clang', c15_defs(nodbg, {'notypeindex': 1}), True, 'allon|notypeindex', rseed, T['steps'], fam['profile']))
+            jobs.append((sj, 'clang', c15_defs(allon, {}), False, 'allon|hook-off', rseed, T['steps'], fam['profile']))
+            jobs.append((sj, 'clang-dev', c15_defs(allon, {}), True, 'allon|development-headers', rseed, T['steps'], fam['profile']))
+            jobs.append((sj, 'gcc', c15_defs(allon, {}), True, 'allon|gcc', rseed, T['steps'], fam['profile']))
+            jobs.append((sj, 'gcc17', c15_defs(allon, {}), True, 'allon|gcc-c++17', rseed, T['steps'], fam['profile']))
+            meta[sj['name']] = (fam['name'], sj)
+    with cf.ProcessPoolExecutor(max_workers=vlib.JOBS) as ex:
+        res = list(ex.map(c15_job, jobs, chunksize=2))
+    by = {}
+    for r in res: by.setdefault(r['shape'], []).append(r)
+    evals = 0; distinct = set(); nocompile = {}; samples = []; compared = 0
+    for name, rs in by.items():
+        ok = [r for r in rs if 'trace' in r]
+        for r in rs:
+            if 'nocompile' in r: nocompile.setdefault(r['label'].split('|')[0] + '|' + r['label'].split('|')[1] if r['label'][0] in '01' else r['label'], 0); nocompile[list(nocompile)[-1]] += 1
+            elif 'error' in r: V.harness_errors.append('%s %s: %s' % (name, r['label'], r['error']))
+        if len(ok) < 2: V.harness_errors.append('%s: fewer than two configurations produced a trace' % name); continue
+        # reference = majority trace
+        groups = {}
+        for r in ok: groups.setdefault(hashlib.sha1('\n'.join(r['trace']).encode()).hexdigest(), []).append(r)
+        ref = max(groups.values(), key=len)
+        for h, g in groups.items():
+            if g is ref: continue
+            for r in g:
+                a = ref[0]['trace']; b = r['trace']; i = 0
+                while i < min(len(a), len(b)) and a[i] == b[i]: i += 1
+                run = {'shape': name, 'desc': meta[name][1]['desc'], 'cfg': meta[name][1]['cfg'], 'flavour': r['flavour'], 'profile': 'c15', 'seed': seed, 'steps': T['steps'], 'args': r['args'], 'sj': meta[name][1], 'defs': r['defs']}
+                V.add('trace|behaviour-differs-between-configurations|' + c15_class(r['label']), 1, {'configuration': r['label'], 'reference': ref[0]['label'], 'event': i, 'reference-events': a[i:i + 3], 'this-configuration': b[i:i + 3]}, run)
+        evals += sum(len(r['trace']) for r in ok); compared += len(ok)
+        for r in ok: distinct.add((name, r['label'], r['flavour']))
+        if len(samples) < 3: samples.append({'shape': name, 'desc': meta[name][1]['desc'][:160], 'family': meta[name][0], 'configurations-compared': len(ok), 'trace-events': len(ref[0]['trace']), 'example-configurations': [r['label'] for r in ok[:6]]})
+    cov = {'evaluations': evals, 'distinct_nontrivial': len(distinct), 'samples': samples,
+           'rule': 'evaluations = normalised trace events (callbacks, requests, guard views, quiescent configurations) compared across builds of the same generated program; distinct_nontrivial = distinct (program, configuration, build flavour) members of the comparison. Configuration label = bits for ' + '/'.join(FEATURES) + ' | logging mode | payload',
+           'configurations_compared': compared, 'configurations_that_do_not_compile': nocompile, 'programs': len(by),
+           'note': 'combinations that do not compile (SERIALIZATION + STRUCTURE_REPORT without TRANSITION_HISTORY) are outside the property\'s quantifier and are listed, not judged'}
+    return V.finish(cov, ['programs are restricted to the feature subset common to all members of a family (core: composite/resumable/selectable/orthogonal regions, requests, guards, update/react/query/reset/enter/exit; utility family: utility theory on in all members)', 'guards cancel but do not substitute, so the substitution limit is never reached and SubstitutionLimitN<4> / <7> are comparable', 'traces are compared after dropping what only exists under a feature (history, payload ids, logger records, structure report)'])
+
+def c15_class(label):
+    p = label.split('|')
+    if p[0] == 'allon': return p[1]
+    return 'feature-switches'
+
+# ---------------------------------------------------------------------------------------------
 # C17: identifiers and structural metadata (light programs, no driver)
 
 def id_job(job):
@@ -446,6 +596,8 @@ def main():
         return id_engine(a.prop, a.tier, a.seed)
     if a.prop == 'C10':
         return c10_engine(a.prop, a.tier, a.seed, a.keep_logs)
+    if a.prop == 'C15':
+        return c15_engine(a.prop, a.tier, a.seed)
     import units
     if a.prop in units.PROPS:
         return units.run(a.prop, a.tier, a.seed)
